@@ -155,11 +155,27 @@ def fixed_specs(rng):
                                                node('c', [inn('#y'), g('#geo0')], 'b'), node('d', [inn('#a')], 'c')]},
                    {'kind': 'scenes', 'items': [{'id': 'vs0', 'nodes': [node('r0', [inn('#x'), inn('#y'), inn('#d')]),
                                                                          node('r1', [inn('#a'), inn('#c')])]}]}]}
+    # every library kind twice; every instance refers to an object of the SECOND element of its kind
+    multi = {'top': [
+        {'kind': 'images', 'items': [{'id': 'img0'}]}, {'kind': 'images', 'items': [{'id': 'img1'}]},
+        {'kind': 'effects', 'items': [{'id': 'fx0', 'image': None}]}, {'kind': 'effects', 'items': [{'id': 'fx1', 'image': 'img1'}]},
+        {'kind': 'materials', 'items': [{'id': 'mat0', 'effect': '#fx1'}]}, {'kind': 'materials', 'items': [{'id': 'mat1', 'effect': '#fx1'}]},
+        {'kind': 'geometries', 'items': [{'id': 'geo0'}]}, {'kind': 'geometries', 'items': [{'id': 'geo1'}]},
+        {'kind': 'controllers', 'items': [{'id': 'con0', 'kind': 'skin', 'source': '#geo1'}]},
+        {'kind': 'controllers', 'items': [{'id': 'con1', 'kind': 'morph', 'source': '#geo1', 'targets': ['geo1']}]},
+        {'kind': 'lights', 'items': [{'id': 'lig0'}]}, {'kind': 'lights', 'items': [{'id': 'lig1'}]}, {'kind': 'lights', 'items': [{'id': 'lig2'}]},
+        {'kind': 'cameras', 'items': [{'id': 'cam0'}]}, {'kind': 'cameras', 'items': [{'id': 'cam1'}]},
+        {'kind': 'nodes', 'items': [node('ln0', [g('#geo0')])]},
+        {'kind': 'nodes', 'items': [node('ln1', [g('#geo1', ['#mat1']), {'t': 'light', 'url': '#lig2'}, {'t': 'cam', 'url': '#cam1'},
+                                                 {'t': 'ctrl', 'url': '#con1', 'mats': ['#mat1']}])]},
+        {'kind': 'scenes', 'items': [{'id': 'vs0', 'nodes': [node('r0', [inn('#ln1'), {'t': 'light', 'url': '#lig1'}])]}]},
+        {'kind': 'scenes', 'items': [{'id': 'vs1', 'nodes': [node('q0', [inn('#ln1'), g('#geo1', ['#mat1']), {'t': 'cam', 'url': '#cam1'}])]}]},
+        {'kind': 'default', 'url': '#vs1'}]}
     sc4 = {'top': [geo, {'kind': 'nodes', 'items': [node('ln0', [g('#geo0')])]},
                    {'kind': 'scenes', 'items': [{'id': 'vs0', 'nodes': [
                        node('p', [inn('#q')], 'q'), node('q', [inn('#r'), inn('#ln0')], 'r'), node('r', [inn('#s')], 's'),
                        node('s', [g('#geo0')], 'p')]}]}]}
-    return {'lib6': lib6, 'lib5a': lib5a, 'lib5b': lib5b, 'chain': chain, 'fan': fan, 'cyc': cyc, 'sc4': sc4, 'two': two}
+    return {'lib6': lib6, 'lib5a': lib5a, 'lib5b': lib5b, 'chain': chain, 'fan': fan, 'cyc': cyc, 'sc4': sc4, 'two': two, 'multi': multi}
 
 
 def copy_swap_node_libs(spec):
@@ -218,6 +234,18 @@ def build_cases(ctx):
     for perm in itertools.permutations(range(4)):
         cases.append(make_case(R.with_scene_node_order(fx['sc4'], perm), [None], True, family='scenenodeperm:sc4'))
     stats['scenenodeperm:sc4'] = 24
+    # every library kind occurring twice (lights three times), instances pointing into the later elements: as written,
+    # reversed, and 40 random orders of the root's children
+    base_m = fx['multi']
+    nm = len(base_m['top'])
+    orders = [list(range(nm)), list(reversed(range(nm)))]
+    for _ in range(40):
+        o_ = list(range(nm))
+        rng.shuffle(o_)
+        orders.append(o_)
+    for o_ in orders:
+        cases.append(make_case(R.permuted(base_m, o_), [None, ['DaeError']], True, family='multi-library'))
+    stats['multi-library'] = len(orders)
     # the two elements in the other document order (the first one instantiates nodes of the later one)
     swapped = copy_swap_node_libs(fx['two'])
     for p2 in itertools.permutations(range(4)):
@@ -335,6 +363,17 @@ def oracle(case, res):
             dflt = [t for t in spec['top'] if t['kind'] == 'default']
             if dflt and strict['default'] is None:
                 fail('order-dependence', 'the default scene reference %s was not resolved' % dflt[0]['url'])
+    if case['clean'] and full is not None and full is not strict:
+        # a tolerant load of a clean document keeps every instance as well
+        want = expected_counts(spec, uids)
+        got = {n[0]: len(n[2]) for n in full['nodes']}
+        for s_ in full['scenes']:
+            for n in s_[2]:
+                got[n[0]] = len(n[2])
+        if full['esc'] or full['errs'] or got != want:
+            fail('order-dependence', 'with ignore=[DaeError] a document whose references are all defined and acyclic records errors '
+                                     'or drops instances: errors %s, bindings %s instead of %s'
+                 % (full['errs'], sorted(got.items()), sorted(want.items())))
     if not case['clean'] and has_certain_dangling(spec):
         if strict is not None and not strict['esc']:
             fail('dangling-not-reported', 'a document with a dangling reference loads without raising')
